@@ -319,6 +319,28 @@ def dense_rpc(ctx, group_forms):
         extra = l2.gen_script(rng, progs, n, rpcs=True, group_forms=group_forms)
         script = [(dt, acts + [a if a[0] != 'rpc' else ('rpc', a[1] + 1000, a[2], a[3]) for a in e_acts if a[0] == 'rpc'])
                   for (dt, acts), (_, e_acts) in zip(script, extra)]
+        if group_forms and rng.random() < 0.5 and len(script) > 8:
+            # motif: a group/all call that arrives while one member is in a state the predicates of the three kinds of call
+            # treat differently (STOPPING: signallable but not 'running'; BACKOFF: 'running' but not signallable)
+            tgt = rng.choice(progs)
+            ns = '%s:%s' % (tgt['group'], tgt['name'])
+            k = rng.randrange(2, len(script) - 4)
+            kind = rng.choice(['signalAllProcesses', 'signalProcessGroup', 'signalProcess*', 'stopAllProcesses', 'startAllProcesses',
+                               'stopProcessGroup', 'startProcessGroup'])
+            call = {'signalAllProcesses': ('supervisor.signalAllProcesses', ('USR1',)),
+                    'signalProcessGroup': ('supervisor.signalProcessGroup', (tgt['group'], 'USR1')),
+                    'signalProcess*': ('supervisor.signalProcess', (tgt['group'] + ':*', 'HUP')),
+                    'stopAllProcesses': ('supervisor.stopAllProcesses', (rng.random() < 0.5,)),
+                    'startAllProcesses': ('supervisor.startAllProcesses', (rng.random() < 0.5,)),
+                    'stopProcessGroup': ('supervisor.stopProcessGroup', (tgt['group'], rng.random() < 0.5)),
+                    'startProcessGroup': ('supervisor.startProcessGroup', (tgt['group'], rng.random() < 0.5))}[kind]
+            pre = rng.choice(['stop', 'stop', 'exit-early', 'none'])
+            script = list(script)
+            if pre == 'stop':
+                script[k] = (script[k][0], script[k][1] + [('rpc', 3000, 'supervisor.stopProcess', (ns, False))])
+            elif pre == 'exit-early':
+                script[k] = (script[k][0], script[k][1] + [('exit', tgt['name'], 1)])
+            script[k + 2] = (256, script[k + 2][1] + [('rpc', 3001, call[0], call[1])])
         yield progs, script
 
 
